@@ -54,7 +54,8 @@ TraceSpec == TraceInit /\ [][TraceNext]_tvars
 
 (* evaluated in every state: report, never stop *)
 Report ==
-  /\ (phase = "load" /\ ~(parent \in ValidParents /\ ValidKinds(parent, kind)))
+  /\ (phase = "load" /\ ~(parent \in ValidParents /\ ValidKinds(parent, kind))
+                    /\ ~(parent \in ValidParentsDoc /\ ValidKindsDoc(parent, kind)))
         => PrintT(<<"badtree", TraceLog[i].id>>)
   /\ (phase = "judged" /\ AscSeq(Visible(cur)) # TraceLog[i].obs)
         => PrintT(<<"mismatch", <<TraceLog[i].id, AscSeq(Visible(cur))>>>>)
